@@ -12,6 +12,7 @@
  */
 
 #include "cppConstType.h"
+#include "cppTypedefType.h"
 
 /**
  *
@@ -53,6 +54,20 @@ substitute_decl(CPPDeclaration::SubstDecl &subst,
   if (rep->_wrapped_around == _wrapped_around) {
     delete rep;
     rep = this;
+  } else {
+    // A cv-qualifier applied to a template parameter or typedef that turns
+    // out to be a reference (or already const) type is ignored.
+    CPPType *target = rep->_wrapped_around;
+    while (target->get_subtype() == ST_typedef) {
+      target = target->as_typedef_type()->_type;
+    }
+    if (target->get_subtype() == ST_reference ||
+        target->get_subtype() == ST_const) {
+      CPPType *same = rep->_wrapped_around;
+      delete rep;
+      subst.insert(SubstDecl::value_type(this, same));
+      return same;
+    }
   }
   rep = CPPType::new_type(rep)->as_const_type();
   subst.insert(SubstDecl::value_type(this, rep));
